@@ -23,6 +23,7 @@ import (
 	"github.com/virus-evolution/gofasta/pkg/genbank"
 	"github.com/virus-evolution/gofasta/pkg/gff"
 	"golang.org/x/exp/constraints"
+	"github.com/virus-evolution/gofasta/pkg/vhook"
 )
 
 type Region struct {
@@ -639,6 +640,7 @@ func getVariants(ref fastaio.EncodedFastaRecord, cdsregions []Region, intregions
 			break
 		}
 
+		vhook.Ready("variants.getVariants", record.Idx)
 		cVariants <- AS
 	}
 }
@@ -741,6 +743,7 @@ func WriteVariants(w io.Writer, start, end int, firstmissing bool, appendSNP boo
 	}
 
 	for variantLine := range cVariants {
+		vhook.Recv("variants.WriteVariants", variantLine.Idx)
 		outputMap[variantLine.Idx] = variantLine
 
 		for {
@@ -806,6 +809,7 @@ func AggregateWriteVariants(w io.Writer, start, end int, appendSNP bool, thresho
 	counter := 0.0
 
 	for AS := range cVariants {
+		vhook.Recv("variants.AggregateWriteVariants", AS.Idx)
 		if AS.Queryname == refID {
 			continue
 		}
